@@ -233,6 +233,9 @@ class ExecMixin(object):
                     return
                 if isinstance(cell, HObj) and cell.cls == "Scope":
                     raise OutOfSubset("Scope item assignment", node)
+                if isinstance(cell, HObj) and cell.cls == "Tree":
+                    st.env["tree_key"], st.env["tree_val"] = idx, v
+                    return    # abstract store; the contract attaches a ghost event to this statement
             raise OutOfSubset("subscript store on %r" % (base,), node)
         raise OutOfSubset("assignment target %s" % type(t).__name__, node)
 
@@ -292,6 +295,24 @@ class ExecMixin(object):
             elif isinstance(e, ast.Name):
                 cls = e.id
         return [(RAISE, st, (cls, args))]
+
+    def st_With(self, stmt, st):
+        if len(stmt.items) != 1:
+            raise OutOfSubset("with (several items)", stmt)
+        it = stmt.items[0]
+        ce = it.context_expr
+        if not (isinstance(ce, ast.Call) and isinstance(ce.func, ast.Name) and ce.func.id == "open"):
+            raise OutOfSubset("with on something other than open()", stmt)
+        for a in ce.args:
+            self.ev(a, st)
+        if "filelines" not in st.env:
+            raise ContractError("unit opens a file: declare the param 'filelines'")
+        out = st.alloc(HList("str", z3.IntVal(0), z3.K(IntS, z3.StringVal(""))))
+        fobj = st.alloc(HObj("file", {"out": out, "lines": st.env["filelines"]}))
+        if it.optional_vars is not None:
+            self.assign(it.optional_vars, fobj, st, stmt)
+        self.assumptions.add("open()/readlines(): the file content is an arbitrary list of strings (param filelines); I/O errors not modelled")
+        return self.run_block(stmt.body, st)
 
     def st_Delete(self, stmt, st):
         raise OutOfSubset("del", stmt)
@@ -444,12 +465,22 @@ class ExecMixin(object):
         raise OutOfSubset("cannot havoc %r" % (v,))
 
     def fresh_cell(self, cell, st, nm):
+        if isinstance(cell, HOpaque):
+            return cell
+        if isinstance(cell, HCList) and any(isinstance(x, (VRef, VTuple, VNone, VOpt)) for x in cell.items):
+            return HOpaque()
         if isinstance(cell, (HList, HCList)):
             c = self.as_hlist(cell, ek=self.unit.list_kinds.get(nm, "str"))
             n = z3.Int(fresh_name(nm + "_len"))
             st.assume(n >= 0)
             return HList(c.ek, n, z3.Array(fresh_name(nm + "_arr"), IntS, SORTS[c.ek]))
         if isinstance(cell, HObj):
+            if cell.cls == "Tree":
+                return cell
+            if cell.cls == "file":
+                f = dict(cell.f)
+                f["out"] = self.fresh_like(cell.f["out"], st, "out")
+                return HObj("file", f)
             return HObj(cell.cls, dict((k, self.fresh_like(v, st, k)) for k, v in cell.f.items()))
         if isinstance(cell, HDict) and cell.items is None:
             return HDict(cell.ek, z3.Array(fresh_name(nm + "_keys"), StrS, BoolS), z3.Array(fresh_name(nm + "_vals"), StrS, SORTS[cell.ek]))
@@ -545,6 +576,9 @@ class ExecMixin(object):
         # 2. havoc + assume invariant
         h = st.fork()
         self.havoc(h, stmt, spec, extra_names=[idx] if is_for else [])
+        for pn, pspec in self.unit.prebind.items():
+            if pn not in h.env:
+                h.env[pn] = self.make_value(pspec, h, pn)
         if is_for:
             k = z3.Int(fresh_name(idx))
             h.env[idx] = VInt(k)
